@@ -172,6 +172,10 @@ func NewLeaderController(config Config, namespace string, shardId int64, rpcClie
 		lc.status = proto.ServingStatus_FENCED
 	}
 
+	if err = checkWalCoversCommitOffset(lc.wal, lc.db); err != nil {
+		return nil, multierr.Combine(err, lc.wal.Close(), lc.db.Close())
+	}
+
 	lc.db.EnableNotifications(lc.termOptions.NotificationsEnabled)
 	lc.setLogger()
 	lc.log.Info("Created leader controller")
